@@ -798,8 +798,14 @@ class Entity(Block):
         port_definitions: dict[str, Signal],
         generic_definitions: dict[str, Any],
     ):
+        decay = _type_qualifier.TypeQualifier.decay
+
         for name, port in template._info.ports.items():
-            port._assign_(port_definitions[name], AssignMode.NEXT)
+            # check compatibility in the direction of the data flow
+            if not port.is_input():
+                decay(port_definitions[name]).copy()._assign(decay(port))
+            if not port.is_output():
+                port._assign_(port_definitions[name], AssignMode.NEXT)
 
         super().__init__(template._info, [], [], template._info.attributes)
         self._template = template
